@@ -196,12 +196,12 @@ def run(ctx):
     for multi, num in ((True, ctx.pick(90, 4000)), (False, ctx.pick(50, 1500))):
         res = ctx.tlc("MC_Infer", "run.cfg", workers=1, simulate=f"num={num}", depth=12,
                       extra_files={"run.cfg": f"SPECIFICATION Spec\nCONSTANTS\n  MaxDocIdx = 5\n  MultiSample = {'TRUE' if multi else 'FALSE'}\nINVARIANT InvSamplesAccepted\nCONSTRAINT Emit\nCHECK_DEADLOCK FALSE\n"},
-                      label=f"MC_Infer sample sets ({'1..4 samples' if multi else 'single sample'})", tags=("SAMPLES",), timeout=3000)
+                      label=f"MC_Infer sample sets ({'1..4 samples' if multi else 'single sample'})", tags=("SAMPLES",), require_cases=True, timeout=3000)
         printed += res.printed
     # second family: subsets of six optional elements in a hidden order (consistent orders: ORDER is demanded)
     res = ctx.tlc("MC_InferSub", "run.cfg", workers=1, simulate=f"num={ctx.pick(120, 5000)}", depth=7,
                   extra_files={"run.cfg": "SPECIFICATION Spec\nINVARIANT InvOrderRealisable\nINVARIANT InvOptional\nCONSTRAINT Emit\nCHECK_DEADLOCK FALSE\n"},
-                  label="MC_InferSub subsets of optional elements", tags=("SAMPLES",), timeout=3000)
+                  label="MC_InferSub subsets of optional elements", tags=("SAMPLES",), require_cases=True, timeout=3000)
     printed += res.printed
     seen = set()
     n = 0
@@ -264,7 +264,7 @@ def mixed_samples(ctx):
     """spec/MC_InferMixed.tla: text next to child elements, at every position, next to every kind of child."""
     res = ctx.tlc("MC_InferMixed", "run.cfg", workers=1,
                   extra_files={"run.cfg": "SPECIFICATION Spec\nINVARIANT InvEveryPositionCounts\nINVARIANT InvPlainStaysPlain\nCONSTRAINT Emit\nCHECK_DEADLOCK FALSE\n"},
-                  label="MC_InferMixed children x text positions x second sample", tags=("MIXED",), timeout=1500)
+                  label="MC_InferMixed children x text positions x second sample", tags=("MIXED",), require_cases=True, timeout=1500)
     cases, seen = [], set()
     for _t, c in res.printed:
         key = json.dumps(c, sort_keys=True)
